@@ -2,10 +2,14 @@ package props
 
 import (
 	"fmt"
+	"go/parser"
+	"go/token"
 	"math/rand"
+	"sort"
 	"strings"
 
 	"verifharness/hist"
+	"verifharness/term"
 )
 
 // C06: references to the local package and to dot-imports are unqualified.
@@ -59,10 +63,20 @@ func (c06) Generate(r *rand.Rand, t string) []*Case {
 			setup = append(setup, hist.Op{Kind: "prefix", F: 0, A: pick(r, prefixPool)})
 		}
 		ndot := 0
+		dotTwice := false
 		for j := 1; j < len(paths); j++ {
 			if r.Intn(3) == 0 && ndot < 8 {
 				setup = append(setup, hist.Op{Kind: "importalias", F: 0, A: paths[j], B: "."})
 				ndot++
+				if r.Intn(4) == 0 {
+					// the same dot-import declared again (a generator that re-declares its
+					// dot-imports on every pass), possibly after an ImportName for the path
+					if r.Intn(3) == 0 {
+						setup = append(setup, hist.Op{Kind: "importname", F: 0, A: paths[j], B: pick(r, namePool)})
+					}
+					setup = append(setup, hist.Op{Kind: "importalias", F: 0, A: paths[j], B: "."})
+					dotTwice = true
+				}
 			} else if r.Intn(5) == 0 {
 				setup = append(setup, hist.Op{Kind: "importname", F: 0, A: paths[j], B: pick(r, namePool)})
 			}
@@ -112,14 +126,512 @@ func (c06) Generate(r *rand.Rand, t string) []*Case {
 		r.Shuffle(len(refs), func(a, b int) { refs[a], refs[b] = refs[b], refs[a] })
 		rc, h := BuildRefCase(r, paths, setup, local, refs, nil)
 		h = append(h, hist.Op{Kind: "noformat", F: 0, Flag: r.Intn(2) == 0}, hist.Op{Kind: "render", F: 0}, hist.Op{Kind: "imports", F: 0})
-		tags := []string{fmt.Sprintf("dots=%d", ndot), fmt.Sprintf("local=%v", local != "")}
+		tags := []string{fmt.Sprintf("dots=%d", ndot), fmt.Sprintf("local=%v", local != ""), "renders=1"}
 		if localDot {
 			tags = append(tags, "local+dot-hint")
+		}
+		if dotTwice {
+			tags = append(tags, "dot-hint-declared-twice")
 		}
 		if localHint {
 			tags = append(tags, "local+ordinary-hint")
 		}
 		out = append(out, &Case{Hist: h, Stream: "local+dot", NonTrivial: true, Meta: map[string]interface{}{"rc": rc, "ndot": ndot}, Tags: tags})
+	}
+	nm := tier(t, 1500, 60000)
+	for i := 0; i < nm; i++ {
+		out = append(out, c06MultiCase(r))
+	}
+	return out
+}
+
+// ---- stream multi-render: two or three renders of one File, hints changing in between ----
+//
+// A File is rendered 2..3 times with File.Render; between two File.Renders the hints of the
+// paths change, fragments are rendered with the File (Statement.RenderWithFile) and further
+// statements are added.  Roles of the paths:
+//
+//	local  the File's own path (half of the cases); between renders it is given dot / ordinary hints
+//	U      first rendered WITHOUT alias - a standard-library path ("fmt", "strings", ...) or a
+//	       path whose name was given by ImportName - and only afterwards declared
+//	       ImportAlias(path, ".")                      (tag dot-hint-after-unaliased-render)
+//	D      first rendered as a dot-import; the dot hint is then replaced by an ordinary
+//	       ImportAlias / ImportName                    (tag dot-hint-replaced-after-bare-render)
+//	G      first rendered under a guessed alias, then declared a dot-import
+//	L      first referenced after the first File.Render (by a fragment or a later Add), its
+//	       hints given before and/or after that render
+//
+// What has to hold in EVERY output (C06 together with C08): a path is written in the form of
+// its first rendering - bare exactly when, at that moment, it was the local path or its hint
+// in force was the dot alias - and the import block (File.Render) or the File's import table
+// (fragments, read through the `imports` observation that follows every render) agrees with
+// the references of that same output: a bare reference needs `. "path"` or the local path, a
+// qualified one needs an import providing exactly that qualifier.
+//
+// In a quarter of the cases ("wild") paths and names come from the colliding pools, so that
+// numbered aliases, prefixes and reserved words take part; there the U role is not
+// guaranteed to be unaliased and the U tag is not set.
+type c06multi struct {
+	Paths []string
+	Local string
+}
+
+func c06MultiCase(r *rand.Rand) *Case {
+	wild := r.Intn(4) == 0
+	stdU := []string{"fmt", "strings", "io", "os", "net/http", "text/template"}
+	userPool := []string{"a.b/d", "c.b/d", "e.f/d", "a.b/rand", "x.y/rand", "a.b/x", "c.d/x", "x.y/pkg", "gopkg.in/yaml.v3", "a/KK", "github.com/foo/bar.v2"}
+	ownNames := []string{"kv", "lib", "core", "store"} // names no guessed alias of userPool and no std name collides with
+	aliasNames := []string{"foo", "bar", "y1", "T", "util", "os2", "zz"}
+	if wild {
+		stdU = append(stdU, "math/rand", "crypto/rand", "html/template", "go/scanner", "text/scanner")
+		userPool = PathPool
+		ownNames = namePool
+		aliasNames = namePool
+	}
+	seen := map[string]bool{}
+	var paths []string
+	take := func(pool []string) int {
+		for {
+			p := pick(r, pool)
+			if !seen[p] {
+				seen[p] = true
+				paths = append(paths, p)
+				return len(paths) - 1
+			}
+		}
+	}
+	var h hist.History
+	local, li := "", -1
+	switch r.Intn(4) {
+	case 0:
+		li = take([]string{"a.b/c", "x/y", "example.com/mod/pkg"})
+		local = paths[li]
+		h = append(h, hist.Op{Kind: "newfilepath", F: 0, A: local})
+	case 1:
+		li = take([]string{"a.b/c", "x/y", "a.b/d", "x.y/rand", "fmt", "q"})
+		local = paths[li]
+		h = append(h, hist.Op{Kind: "newfilepathname", F: 0, A: local, B: "q"})
+	default:
+		h = append(h, hist.Op{Kind: "newfile", F: 0, A: "p"})
+	}
+	if r.Intn(2) == 0 {
+		h = append(h, hist.Op{Kind: "prefix", F: 0, A: pick(r, prefixPool)})
+	}
+	nf := r.Intn(2) == 0
+	h = append(h, hist.Op{Kind: "noformat", F: 0, Flag: nf})
+
+	tags := map[string]bool{}
+	ordinary := func(p string) hist.Op {
+		if r.Intn(2) == 0 {
+			return hist.Op{Kind: "importname", F: 0, A: p, B: pick(r, aliasNames)}
+		}
+		return hist.Op{Kind: "importalias", F: 0, A: p, B: pick(r, aliasNames)}
+	}
+	dot := func(p string) hist.Op { return hist.Op{Kind: "importalias", F: 0, A: p, B: "."} }
+
+	var pre hist.History    // hints before the first render
+	var changes [][]hist.Op // per role: the later hint(s), given between renders
+	var changeTag []string  // tag of each change
+	var early []int         // paths referenced by the first body
+	var late []int          // paths first referenced after the first File.Render
+	nU := 1 + r.Intn(2)
+	for k := 0; k < nU; k++ {
+		var i int
+		if r.Intn(2) == 0 {
+			i = take(stdU)
+		} else {
+			i = take(userPool)
+			pre = append(pre, hist.Op{Kind: "importname", F: 0, A: paths[i], B: pick(r, ownNames)})
+			ownNames = without(ownNames, pre[len(pre)-1].B, wild)
+		}
+		early = append(early, i)
+		ch := []hist.Op{dot(paths[i])}
+		if r.Intn(4) == 0 { // ... and the dot hint replaced again later
+			ch = append(ch, ordinary(paths[i]))
+		}
+		changes = append(changes, ch)
+		if wild {
+			changeTag = append(changeTag, "dot-hint-after-render")
+		} else {
+			changeTag = append(changeTag, "dot-hint-after-unaliased-render")
+		}
+	}
+	for k := r.Intn(3); k > 0; k-- { // D
+		i := take(userPool)
+		pre = append(pre, dot(paths[i]))
+		if r.Intn(4) == 0 {
+			pre = append(pre, dot(paths[i])) // declared twice
+			tags["dot-hint-declared-twice"] = true
+		}
+		early = append(early, i)
+		ch := []hist.Op{ordinary(paths[i])}
+		if r.Intn(4) == 0 {
+			ch = append(ch, dot(paths[i]))
+		}
+		changes = append(changes, ch)
+		changeTag = append(changeTag, "dot-hint-replaced-after-bare-render")
+	}
+	if r.Intn(2) == 0 { // G
+		i := take(userPool)
+		early = append(early, i)
+		changes = append(changes, []hist.Op{dot(paths[i])})
+		changeTag = append(changeTag, "dot-hint-after-aliased-render")
+	}
+	if r.Intn(2) == 0 { // L
+		i := take(userPool)
+		late = append(late, i)
+		switch r.Intn(4) {
+		case 0:
+			pre = append(pre, dot(paths[i]))
+			changes = append(changes, []hist.Op{ordinary(paths[i])})
+		case 1:
+			pre = append(pre, ordinary(paths[i]))
+			changes = append(changes, []hist.Op{dot(paths[i])})
+		case 2:
+			changes = append(changes, []hist.Op{dot(paths[i])})
+		default:
+			changes = append(changes, []hist.Op{ordinary(paths[i])})
+		}
+		changeTag = append(changeTag, "late-path")
+	}
+	if li >= 0 {
+		early = append(early, li)
+		if r.Intn(3) > 0 {
+			if r.Intn(3) == 0 {
+				pre = append(pre, pick2(r, dot(local), ordinary(local)))
+			}
+			ch := []hist.Op{pick2(r, dot(local), ordinary(local))}
+			if r.Intn(3) == 0 {
+				ch = append(ch, pick2(r, dot(local), ordinary(local)))
+			}
+			changes = append(changes, ch)
+			changeTag = append(changeTag, "local-hinted-between-renders")
+		}
+	}
+	r.Shuffle(len(pre), func(a, b int) { pre[a], pre[b] = pre[b], pre[a] })
+	h = append(h, pre...)
+
+	body := func(ps []int, each bool) []*term.Stmt {
+		var refs []int
+		for _, i := range ps {
+			if each || r.Intn(2) == 0 {
+				for k := 0; k < 1+r.Intn(2); k++ {
+					refs = append(refs, i)
+				}
+			}
+		}
+		r.Shuffle(len(refs), func(a, b int) { refs[a], refs[b] = refs[b], refs[a] })
+		return RefBody(r, paths, refs, nil)
+	}
+	var fileStmts []*term.Stmt
+	for _, st := range body(early, true) {
+		h = append(h, hist.Op{Kind: "fadd", F: 0, Code: st})
+		fileStmts = append(fileStmts, st)
+	}
+	nfrag := 0
+	fragment := func() {
+		var st *term.Stmt
+		if len(fileStmts) > 0 && r.Intn(3) == 0 {
+			st = fileStmts[r.Intn(len(fileStmts))] // the same objects are in the File body
+			tags["fragment-shared-with-file"] = true
+		} else {
+			all := r.Perm(len(paths))
+			if len(all) > 3 {
+				all = all[:3]
+			}
+			sts := body(all, true)
+			st = sts[r.Intn(len(sts))]
+		}
+		h = append(h, hist.Op{Kind: "rcode", F: 0, Code: st}, hist.Op{Kind: "imports", F: 0})
+		nfrag++
+	}
+	if r.Intn(5) == 0 {
+		fragment() // the first rendering of some paths is a fragment's
+		tags["first-output-is-a-fragment"] = true
+	}
+	h = append(h, hist.Op{Kind: "render", F: 0}, hist.Op{Kind: "imports", F: 0})
+
+	renders := 2 + r.Intn(2)
+	// distribute the changes over the gaps; the first change (a U path) is in the first gap
+	gaps := make([][]func(), renders-1)
+	for ci := range changes {
+		ci := ci
+		g := 0
+		for k, op := range changes[ci] {
+			if k > 0 || ci > 0 {
+				g += r.Intn(renders - 1 - g)
+			}
+			op := op
+			first := k == 0
+			gaps[g] = append(gaps[g], func() {
+				h = append(h, op)
+				if first {
+					tags[changeTag[ci]] = true
+				}
+			})
+		}
+	}
+	for g := range gaps {
+		acts := gaps[g]
+		// the changes keep their relative order per path (they were appended in order); other
+		// actions are inserted at random positions
+		ins := func(f func()) {
+			k := r.Intn(len(acts) + 1)
+			acts = append(acts[:k:k], append([]func(){f}, acts[k:]...)...)
+		}
+		if r.Intn(3) > 0 {
+			ins(fragment)
+		}
+		if r.Intn(2) == 0 || (g == 0 && len(late) > 0) {
+			ins(func() {
+				ps := append(append([]int{}, early...), late...)
+				sts := body(ps, false)
+				if g == 0 && len(late) > 0 {
+					sts = append(sts, body(late, true)...)
+				}
+				for _, st := range sts {
+					h = append(h, hist.Op{Kind: "fadd", F: 0, Code: st})
+					fileStmts = append(fileStmts, st)
+				}
+			})
+		}
+		if r.Intn(6) == 0 {
+			ins(func() { nf = !nf; h = append(h, hist.Op{Kind: "noformat", F: 0, Flag: nf}) })
+		}
+		for _, f := range acts {
+			f()
+		}
+		h = append(h, hist.Op{Kind: "render", F: 0}, hist.Op{Kind: "imports", F: 0})
+	}
+	tl := []string{fmt.Sprintf("renders=%d", renders), fmt.Sprintf("fragments=%d", nfrag), fmt.Sprintf("local=%v", local != "")}
+	if wild {
+		tl = append(tl, "wild-names")
+	}
+	for t := range tags {
+		tl = append(tl, t)
+	}
+	sort.Strings(tl)
+	// NonTrivial: at least two File.Renders write some path whose hint changed between dot
+	// and non-dot in between (by construction: the first U path is referenced by the File
+	// body and its dot hint is given in the first gap).
+	return &Case{Hist: h, Stream: "multi-render", NonTrivial: true, Tags: tl,
+		Meta: map[string]interface{}{"c06multi": &c06multi{Paths: paths, Local: local}}}
+}
+
+func pick2(r *rand.Rand, a, b hist.Op) hist.Op {
+	if r.Intn(2) == 0 {
+		return a
+	}
+	return b
+}
+
+// without removes name from pool unless keep (or the pool would become empty).
+func without(pool []string, name string, keep bool) []string {
+	if keep || len(pool) <= 1 {
+		return pool
+	}
+	var out []string
+	for _, n := range pool {
+		if n != name {
+			out = append(out, n)
+		}
+	}
+	return out
+}
+
+type c06hint struct {
+	name  string
+	alias bool
+}
+
+type c06first struct {
+	q        string          // "" = bare
+	op       int             // operation that wrote the path first
+	declared map[string]bool // names an import WITHOUT alias may rely on
+}
+
+// c06MultiOracle judges every output of a multi-render history on its own (see the stream's
+// comment).  Only go/parser and the history are used.
+func c06MultiOracle(c *Case, info *c06multi, got []hist.Obs) string {
+	rc := &RefCase{Paths: info.Paths}
+	hints := map[string]c06hint{}
+	first := map[string]*c06first{}
+	anon := map[string]bool{}
+	showQ := func(q string) string {
+		if q == "" {
+			return "a bare identifier"
+		}
+		return q + ".X"
+	}
+	oi := 0
+	var lastQM map[string]string
+	lastOp := -1
+	for i, op := range c.Hist {
+		switch op.Kind {
+		case "importname":
+			hints[op.A] = c06hint{op.B, false}
+		case "importalias":
+			hints[op.A] = c06hint{op.B, true}
+		case "importnames":
+			for _, kv := range op.Pairs {
+				hints[kv[0]] = c06hint{kv[1], false}
+			}
+		case "anon":
+			for _, p := range op.Strs {
+				anon[p] = true
+			}
+		case "imports":
+			if oi >= len(got) {
+				return fmt.Sprintf("operation %d (imports) has no observation", i)
+			}
+			o := got[oi]
+			oi++
+			if o.Kind != "imports" {
+				return fmt.Sprintf("operation %d (imports): unexpected observation %s", i, o)
+			}
+			tab := map[string]hist.Import{}
+			for _, im := range o.Imports {
+				tab[im.Path] = im
+			}
+			for _, p := range sortedKeys(c08Keys(lastQM)) {
+				q := lastQM[p]
+				im, ok := tab[p]
+				what := fmt.Sprintf("operation %d wrote path %q as %s, but the File's import table", lastOp, p, showQ(q))
+				switch {
+				case p == info.Local && info.Local != "":
+					if ok {
+						return fmt.Sprintf("%s holds the File's own path (as %q)", what, im.Name)
+					}
+				case !ok:
+					return fmt.Sprintf("%s has no entry for it", what)
+				case q == "" && !(im.Name == "." && im.Alias):
+					return fmt.Sprintf("%s registers it as %q, not as a dot-import", what, im.Name)
+				case q != "" && im.Name != q:
+					return fmt.Sprintf("%s registers it as %q", what, im.Name)
+				}
+			}
+			lastQM = nil
+		case "render", "rcode":
+			if oi >= len(got) {
+				return fmt.Sprintf("operation %d (%s) has no observation", i, op.Kind)
+			}
+			o := got[oi]
+			oi++
+			if o.Kind != "write" || o.Failed {
+				return fmt.Sprintf("operation %d (%s) did not render: %s", i, op.Kind, o)
+			}
+			src := o.Out
+			if op.Kind == "rcode" {
+				var err error
+				if src, err = c08Wrap(o.Out); err != nil {
+					return fmt.Sprintf("operation %d (rcode): output does not parse: %v\n%q", i, err, o.Out)
+				}
+			}
+			qm, err := rc.QualifierMap(src)
+			if err != nil { // does not parse, or one output writes a path in two ways
+				return fmt.Sprintf("operation %d (%s): %v\n%q", i, op.Kind, err, o.Out)
+			}
+			for _, p := range sortedKeys(c08Keys(qm)) {
+				q := qm[p]
+				if f, ok := first[p]; ok {
+					if f.q != q {
+						return fmt.Sprintf("path %q was first written as %s (operation %d) and is written as %s by operation %d (%s): a path keeps the form of its first rendering\n%q", p, showQ(f.q), f.op, showQ(q), i, op.Kind, o.Out)
+					}
+					continue
+				}
+				hn, hinted := hints[p]
+				isLocal := p == info.Local && info.Local != ""
+				dotNow := hinted && hn.alias && hn.name == "."
+				switch {
+				case isLocal && q != "":
+					return fmt.Sprintf("operation %d (%s): the File's own path %q is qualified by %s\n%q", i, op.Kind, p, q, o.Out)
+				case !isLocal && dotNow && q != "":
+					return fmt.Sprintf("operation %d (%s): path %q is declared a dot-import at its first rendering but is qualified by %s\n%q", i, op.Kind, p, q, o.Out)
+				case !isLocal && !dotNow && q == "":
+					return fmt.Sprintf("operation %d (%s): path %q is written bare at its first rendering although it is neither the local path nor, at that moment, declared a dot-import\n%q", i, op.Kind, p, o.Out)
+				}
+				f := &c06first{q: q, op: i, declared: map[string]bool{}}
+				if n, ok := StdNames[p]; ok {
+					f.declared[n] = true
+				}
+				if hinted && !hn.alias {
+					f.declared[hn.name] = true
+				}
+				first[p] = f
+			}
+			lastQM, lastOp = qm, i
+			if op.Kind != "render" {
+				continue
+			}
+			pf, err := parser.ParseFile(token.NewFileSet(), "x.go", o.Out, parser.ImportsOnly)
+			if err != nil {
+				return fmt.Sprintf("operation %d (render): output does not parse: %v", i, err)
+			}
+			specs, err := parseImports(pf)
+			if err != nil {
+				return err.Error()
+			}
+			bound := map[string]string{}
+			have := map[string]bool{}
+			for _, sp := range specs {
+				what := fmt.Sprintf("operation %d (File.Render): the import block", i)
+				if have[sp.path] {
+					return fmt.Sprintf("%s imports %q twice\n%q", what, sp.path, o.Out)
+				}
+				have[sp.path] = true
+				if sp.path == info.Local && info.Local != "" {
+					return fmt.Sprintf("%s imports the File's own path %q\n%q", what, sp.path, o.Out)
+				}
+				f, written := first[sp.path]
+				switch {
+				case sp.name == "_":
+					if !anon[sp.path] {
+						return fmt.Sprintf("%s has an anonymous import of %q that was never requested\n%q", what, sp.path, o.Out)
+					}
+					if written {
+						return fmt.Sprintf("%s imports %q as _ although it was written as %s by operation %d\n%q", what, sp.path, showQ(f.q), f.op, o.Out)
+					}
+					continue
+				case !written:
+					return fmt.Sprintf("%s imports %q, which no output produced with the File has written\n%q", what, sp.path, o.Out)
+				case sp.name == ".":
+					if f.q != "" {
+						return fmt.Sprintf("%s dot-imports %q, but the path is written as %s (since operation %d)\n%q", what, sp.path, showQ(f.q), f.op, o.Out)
+					}
+					continue
+				case f.q == "":
+					return fmt.Sprintf("%s does not dot-import %q, but the path is written bare (since operation %d)\n%q", what, sp.path, f.op, o.Out)
+				case sp.name != "" && sp.name != f.q:
+					return fmt.Sprintf("%s declares %q as %s, but the path is written as %s (since operation %d)\n%q", what, sp.path, sp.name, showQ(f.q), f.op, o.Out)
+				case sp.name == "" && !f.declared[f.q]:
+					return fmt.Sprintf("%s imports %q without alias, but the path is written as %s and nothing declares that name as the package's own\n%q", what, sp.path, showQ(f.q), o.Out)
+				}
+				if other, dup := bound[f.q]; dup {
+					return fmt.Sprintf("%s binds the name %s twice, for %q and %q\n%q", what, f.q, other, sp.path, o.Out)
+				}
+				bound[f.q] = sp.path
+			}
+			for _, p := range sortedKeys(c06FirstKeys(first)) {
+				if p == info.Local && info.Local != "" {
+					continue
+				}
+				if !have[p] {
+					_, now := qm[p]
+					return fmt.Sprintf("operation %d (File.Render): path %q is written as %s (first by operation %d; by this output: %v) but the import block does not import it\n%q", i, p, showQ(first[p].q), first[p].op, now, o.Out)
+				}
+			}
+		}
+	}
+	if lastOp < 0 {
+		return "the history produced no render observation"
+	}
+	return ""
+}
+
+func c06FirstKeys(m map[string]*c06first) map[string]bool {
+	out := map[string]bool{}
+	for k := range m {
+		out[k] = true
 	}
 	return out
 }
@@ -143,6 +655,9 @@ func (c06) Regressions() []*Case {
 func (c06) Compare(c *Case, exp, got []hist.Obs) string { return CompareAll(exp, got) }
 
 func (c06) Oracle(c *Case, got []hist.Obs) string {
+	if info, ok := c.Meta["c06multi"].(*c06multi); ok {
+		return c06MultiOracle(c, info, got)
+	}
 	if m := refOracle(c, got); m != "" {
 		return m
 	}
